@@ -718,8 +718,21 @@ def gen_asset(g):
                 c[k] = g.phrase()
         A['contributors'].append(c)
     def date():
-        return '20%02d-%02d-%02dT%02d:%02d:%02d' % (rng.randint(0, 29), rng.randint(1, 12), rng.randint(1, 28),
-                                                     rng.randint(0, 23), rng.randint(0, 59), rng.randint(0, 59)) + rng.choice(['', 'Z'])
+        # xs:dateTime spellings (zone designators, fractions, a date alone) and, as the schema type collapses
+        # whitespace, text set on its own line
+        ymd = (2000 + rng.randint(0, 29), rng.randint(1, 12), rng.randint(1, 28))
+        hms = (rng.randint(0, 23), rng.randint(0, 59), rng.randint(0, 59))
+        form = rng.choice(['iso', 'iso', 'iso', 'space', 'compact', 'date'])
+        if form == 'date':
+            text = '%04d-%02d-%02d' % ymd
+        elif form == 'compact':
+            text = '%04d%02d%02dT%02d%02d%02d' % (ymd + hms) + rng.choice(['', 'Z'])
+        else:
+            text = '%04d-%02d-%02d' % ymd + ('T' if form == 'iso' else ' ') + '%02d:%02d:%02d' % hms
+            text += rng.choice(['', '', 'Z', 'z', '+02:00', '-05:30', '.250', '.5Z'])
+        if g.odd_ws and g.chance(0.5):
+            text = rng.choice(['\n    ', ' ', '\t']) + text + rng.choice(['\n  ', ' ', ''])
+        return text
     A['created'] = date()
     A['modified'] = date()
     for k in ['keywords', 'revision', 'subject', 'title']:
